@@ -69,6 +69,13 @@ class FuncInfo(object):
         return [x.arg for x in a.posonlyargs + a.args]
 
     @property
+    def all_params(self):
+        """positional parameters, then the keyword-only ones: indexing it
+        agrees with `params` wherever that has the index"""
+        a = self.node.args
+        return [x.arg for x in a.posonlyargs + a.args + a.kwonlyargs]
+
+    @property
     def body(self):
         if isinstance(self.node, ast.Lambda):
             return [ast.Return(value=self.node.body, lineno=self.node.lineno,
